@@ -319,10 +319,10 @@ class TCPPacketGenerator(Device, OutMixIn):
         if ackno == self.last_ack:
             self.dupack += 1
         else:
-            # fast recovery
-            if self.dupack > 0:
+            # leaving fast recovery, which is entered on the third duplicate
+            if self.dupack >= 3:
                 self.congestion_control.dupack_over()
-                self.dupack = 0
+            self.dupack = 0
 
         if self.dupack == 3:
             self.congestion_control.consecutive_dupacks_received()
